@@ -44,8 +44,12 @@ def cases(tier, seed):
         elif c < 0.72:
             # a file emdfile itself wrote, with only the header's version numbers changed: not EMD 1.0 any more
             maj, mnr = r.choice([(1, 1), (1, 7), (2, 0), (3, 4), (0, 9), (1, -1), (0, 0), (0, 1), (10, 0), (1, 10)])
-            yield {"kind": "foreign", "spec": "version", "major": maj, "minor": mnr, "release": r.choice([None, 0, 3]),
-                   "tree": gen.gen_tree(r, maxdepth=2)}
+            case = {"kind": "foreign", "spec": "version", "major": maj, "minor": mnr, "release": r.choice([None, 0, 3]),
+                    "tree": gen.gen_tree(r, maxdepth=2)}
+            if r.random() < 0.3:
+                # ... or with a header attribute MISSING (the numbers left as the package wrote them): absent is not "as expected"
+                case.update(major=1, minor=0, release=None, drop=r.choice(["emd_group_type", "version_major", "version_minor"]))
+            yield case
         elif c < 0.85:
             yield {"kind": "foreign", "spec": r.choice(["empty", "attrs_only", "wrong_version", "no_roots", "group", "wrong_type",
                                                          "tag_str", "tag_two"])}
@@ -67,6 +71,8 @@ def build_file(case, path):
             f.attrs["version_minor"] = case["minor"]
             if case["release"] is not None:
                 f.attrs["version_release"] = case["release"]
+            if case.get("drop"):
+                del f.attrs[case["drop"]]
         return
     with h5py.File(path, "w") as f:
         if case["kind"] == "foreign":
